@@ -521,6 +521,101 @@ theorem set_literal_eq_set_in_units (alg : Alg K) (env : List Char → Option K)
     (setLiteral alg env (v ++ ' ' :: u)).map (fun x => [x]) = some (setInUnits [litVal me.1 me.2] f) := by
   rw [set_literal_value_unit alg env v u me f hv hu hf]; rfl
 
+/-! ### sessions: nothing is remembered beyond the last state-changing call -/
+
+section session
+
+theorem finalScales_append (tab : List UnitEntry) (sc : Scales K) (h1 h2 : List (Call K)) :
+    finalScales tab sc (h1 ++ h2) = finalScales tab (finalScales tab sc h1) h2 := by
+  induction h1 generalizing sc with
+  | nil => rfl
+  | cons c cs ih => simp only [List.cons_append, finalScales]; exact ih _
+
+theorem runCalls_append (alg : Alg K) (tab : List UnitEntry) (sc : Scales K) (h1 h2 : List (Call K)) :
+    runCalls alg tab sc (h1 ++ h2) = runCalls alg tab sc h1 ++ runCalls alg tab (finalScales tab sc h1) h2 := by
+  induction h1 generalizing sc with
+  | nil => rfl
+  | cons c cs ih => simp only [List.cons_append, runCalls, finalScales]; rw [ih]
+
+theorem finalScales_reads (tab : List UnitEntry) (sc : Scales K) (reads : List (Call K))
+    (hr : ∀ c ∈ reads, c.isRead = true) : finalScales tab sc reads = sc := by
+  induction reads generalizing sc with
+  | nil => rfl
+  | cons c cs ih =>
+    have hc := hr c (List.mem_cons_self ..)
+    have hn : c.next tab sc = sc := by cases c <;> simp_all [Call.isRead, Call.next]
+    simp only [finalScales, hn]
+    exact ih sc (fun c' h' => hr c' (List.mem_cons_of_mem _ h'))
+
+/-- **a call is answered from the scalings in force**: the reply to the last call of any session is the reply that
+    call gets in the state the history left — and (next two theorems) that state is fixed by the most recent
+    state-changing call alone. -/
+theorem session_reply_last (alg : Alg K) (tab : List UnitEntry) (sc0 : Scales K) (h : List (Call K)) (c : Call K) :
+    runCalls alg tab sc0 (h ++ [c]) = runCalls alg tab sc0 h ++ [c.reply alg tab (finalScales tab sc0 h)] := by
+  rw [runCalls_append]; rfl
+
+/-- **history independence after `reset_units(**kwargs)`**: whatever was evaluated before and whatever working
+    units were in force (`h`, `sc0` arbitrary), after a named reset that succeeds — and any number of reads — the
+    scalings are exactly those the reset computes from the SI baseline. -/
+theorem session_state_after_reset (tab : List UnitEntry) (sc0 : Scales K) (h : List (Call K)) (ch : Choice) (r : K)
+    (s : Scales K) (hcount : ch.count ≤ 4) (hs : resetScales (envSI (K := K) tab) ch r = some s)
+    (reads : List (Call K)) (hr : ∀ c ∈ reads, c.isRead = true) :
+    finalScales tab sc0 (h ++ Call.reset ch r :: reads) = s := by
+  rw [finalScales_append]
+  simp only [finalScales, Call.next, resetState, if_neg (by omega : ¬ 4 < ch.count), hs, Option.getD_some]
+  exact finalScales_reads tab s reads hr
+
+/-- the same after `reset_units(seed)` / `reset_units('SI')` / `build_unit()`. -/
+theorem session_state_after_rebase (tab : List UnitEntry) (sc0 : Scales K) (h : List (Call K)) (s : Scales K)
+    (reads : List (Call K)) (hr : ∀ c ∈ reads, c.isRead = true) :
+    finalScales tab sc0 (h ++ Call.rebase s :: reads) = s := by
+  rw [finalScales_append]
+  simp only [finalScales, Call.next]
+  exact finalScales_reads tab s reads hr
+
+/-- a refused reset (more than four keywords) changes nothing; one that raises half-way leaves the SI table. -/
+theorem session_state_after_failed_reset (tab : List UnitEntry) (sc0 : Scales K) (h : List (Call K)) (ch : Choice) (r : K)
+    (hs : resetScales (envSI (K := K) tab) ch r = none) :
+    finalScales tab sc0 (h ++ [Call.reset ch r])
+      = if 4 < ch.count then finalScales tab sc0 h else siScales := by
+  rw [finalScales_append]
+  simp only [finalScales, Call.next, resetState, hs, Option.getD_none]
+
+variable [CharZero K]
+
+/-- **chosen units are one, in any session**: after an arbitrary history, a named reset (≤ 4 keywords, not
+    over-determined, names of the right dimension) and any reads, `uc.unit[n]` and `uc.parse(n)` are exactly 1
+    for every chosen name `n`. -/
+theorem session_chosen_units_one (toInt? : K → Option Int) (tab : List UnitEntry) (htab : tableOK tab = true)
+    (ch : Choice) (hcount : ch.count ≤ 4) (hover : ch.overDetermined = false) (hch : ChoiceOK tab ch)
+    (r : K) (hr : ∀ x, radicand (envSI (K := K) tab) ch = some x → r * r = x)
+    (sc0 : Scales K) (h reads : List (Call K)) (hreads : ∀ c ∈ reads, c.isRead = true)
+    (k : Kind) (n : List Char) (hk : ch.get k = some n) (hv : validName n) :
+    (Call.unit n).reply (numAlg toInt?) tab (finalScales tab sc0 (h ++ Call.reset ch r :: reads)) = some [1]
+    ∧ (Call.parse (some n)).reply (numAlg toInt?) tab (finalScales tab sc0 (h ++ Call.reset ch r :: reads)) = some [1] := by
+  obtain ⟨sc, h1, _, h3⟩ := reset_named_units_are_one tab htab ch hcount hover hch r hr
+  rw [session_state_after_reset tab sc0 h ch r sc hcount h1 reads hreads]
+  refine ⟨by simp only [Call.reply, h3 k n hk, Option.map_some], ?_⟩
+  simp only [Call.reply, parseUnits]
+  split
+  · simp [numAlg, litVal, powInt, powNat]
+  · rw [parse_name _ _ n hv, h3 k n hk]; rfl
+
+/-- **working-unit independence across sessions**: the same conversion between two expressions of equal dimension,
+    asked at the end of any two histories (non-zero scalings in force), gets the same answer `x · v1 / v2`. -/
+theorem session_conversion_invariant (toInt? : K → Option Int) (tab : List UnitEntry)
+    (s1 s2 : List Char) (v1 v2 : K) (d : D5)
+    (h1 : parse (trackAlg toInt?) (envTracked tab) s1 = some (v1, d))
+    (h2 : parse (trackAlg toInt?) (envTracked tab) s2 = some (v2, d)) (hv2 : v2 ≠ 0)
+    (hs1 : s1 ≠ ['s', 'c', 'a', 'l', 'e', 'd']) (hs2 : s2 ≠ ['s', 'c', 'a', 'l', 'e', 'd'])
+    (sc0 : Scales K) (h : List (Call K)) (hn : (finalScales tab sc0 h).Nonzero) (x : List K) :
+    (Call.convert x (some s1) (some s2)).reply (numAlg toInt?) tab (finalScales tab sc0 h)
+      = some (x.map fun t => t * v1 / v2) := by
+  obtain ⟨f1, f2, e1, e2, hf2, hx⟩ := same_dim_ratio_invariant toInt? tab s1 s2 v1 v2 d h1 h2 hv2 _ hn x
+  simp only [Call.reply, parseUnits, if_neg hs1, if_neg hs2, e1, e2, if_neg hf2, hx]
+
+end session
+
 /-! ### non-vacuity: the hypotheses of the theorems above are satisfiable on the generated tables -/
 
 /-- decidable form of `validName`. -/
@@ -593,5 +688,24 @@ example : 4 < (⟨some ['m'], some ['k', 'g'], some ['s'], some ['J'], some ['C'
 example : LeavesOK (.div (.name ['k', 'g']) (.pow (.name ['s']) (.num ['-', '2']))) :=
   ⟨validName_of_b (by decide), validName_of_b (by decide), ⟨'-', ['2'], rfl, by decide, by simp [noStop, isStop], by simp [noParen]⟩⟩
 example : allWs [' ', '\t', '\n', '\r'] := by intro c hc; simp at hc; rcases hc with rfl | rfl | rfl | rfl <;> decide
+
+-- a session in the sense of the `session_*` theorems: a charge-bearing expression is read, the charge unit alone is
+-- changed by name, the same expression is read again (answered from the new scalings), the chosen unit is 1
+example : (runCalls (numAlg ratToInt?) unitTable (siScales (K := Rat))
+      [.parse (some "C".toList), .reset ⟨none, none, none, none, some "e".toList⟩ 0,
+       .parse (some "C".toList), .parse (some "e".toList), .unit "e".toList])[0]? = some (some [1]) := by decide +kernel
+example : (runCalls (numAlg ratToInt?) unitTable (siScales (K := Rat))
+      [.parse (some "C".toList), .reset ⟨none, none, none, none, some "e".toList⟩ 0,
+       .parse (some "C".toList), .parse (some "e".toList), .unit "e".toList])[2]? ≠ some (some [1]) := by decide +kernel
+example : (runCalls (numAlg ratToInt?) unitTable (siScales (K := Rat))
+      [.parse (some "C".toList), .reset ⟨none, none, none, none, some "e".toList⟩ 0,
+       .parse (some "C".toList), .parse (some "e".toList), .unit "e".toList]).drop 3 = [some [1], some [1]] := by
+  decide +kernel
+-- a reset that raises half-way (unknown name) leaves the SI table, a five-keyword one leaves the state alone
+example : finalScales unitTable (⟨3, 1 / 7, 11, 5 / 2, 1⟩ : Scales Rat) [.reset ⟨some "nounit".toList, none, none, none, none⟩ 0]
+    = siScales := by decide +kernel
+example : finalScales unitTable (⟨3, 1 / 7, 11, 5 / 2, 1⟩ : Scales Rat)
+      [.reset ⟨some ['m'], some ['k', 'g'], some ['s'], some ['J'], some ['C']⟩ 0] = ⟨3, 1 / 7, 11, 5 / 2, 1⟩ := by
+  decide +kernel
 
 end Atomman.C09
